@@ -103,6 +103,16 @@ def mask_so(files, bits):
     return "".join("x" if f["kind"] == "so" else b for f, b in zip(files, bits))
 
 
+def load_set_differs(files, model_raw_line, oracle_verdict):
+    """ld/lld and wild differ in WHICH archive members take part for some inputs (e.g. a definition in a shared object already
+    satisfies the reference for ld/lld, while wild requests the first definer): that is C03's subject. C02's oracle is only
+    consulted when both load the same regular files."""
+    if not oracle_verdict.startswith("L="):
+        return False
+    mbits = mask_so(files, model_raw_line.split()[0][2:])
+    return oracle_verdict.split()[0][2:] != mbits
+
+
 def fortran_common_region(files):
     """GNU ld and lld also load an archive member to replace a COMMON symbol by a real definition; the
     property does not ask for that (a common definition is not a reference), so the oracles are not consulted there."""
@@ -257,6 +267,9 @@ def run(ctx):
             rc, o, e = run_linker(lk, d, line, am, out)
             verdicts[lk] = canon_impl(files, rc, e, out)
         oracle_checked += 1
+        if verdicts["ld"] == verdicts["lld"] and load_set_differs(files, model_raw[i], verdicts["ld"]):
+            ctx.count("oracle", "skipped-load-set-differs")
+            continue
         if verdicts["ld"] == verdicts["lld"] and verdicts["ld"] != impl[i] and not verdicts["ld"].startswith("err:other"):
             ctx.cov["impl_oracle_failures"] += 1
             # Is the difference explained by GNU ld/lld treating STB_GNU_UNIQUE as a strong (global) definition?
@@ -285,7 +298,8 @@ def run(ctx):
             rc, o, e = run_linker(lk, d2, line2, am, out)
             vs[lk] = canon_impl(small, rc, e, out)
         ctx.sample({"minimised_disagreement": req, "wild": wi, "model": mo, "ld": vs["ld"], "lld": vs["lld"]})
-        if vs["ld"] == vs["lld"] and vs["ld"] != wi and not vs["ld"].startswith("err:other") and not fortran_common_region(small):
+        if vs["ld"] == vs["lld"] and vs["ld"] != wi and not vs["ld"].startswith("err:other") and not fortran_common_region(small) \
+                and not load_set_differs(small, ctx.model_eval([req])[0], vs["ld"]):
             alt = req.replace(":u:", ":s:")
             if alt != req and canon_model(small, ctx.model_eval([alt])[0]) == vs["ld"]:
                 continue
